@@ -47,7 +47,7 @@ func runC20(c *Ctx) {
 			checkSetMethod(c, p, fn, spec[1])
 		}
 	}
-	c.R.RequireMin("R20.1", "non-mutating set methods analysed", nMethods, 26)
+	c.R.RequireMin("R20.1", "non-mutating set methods analysed", nMethods, 16)
 
 	checkHeapAdapter(c, p)
 }
